@@ -1037,14 +1037,11 @@ def guards(chk, w):
     if len(fs) == 1:
         b = fs[0].body
         du = defuse.DefUse(b)
-        idx = [bb for bb, _t in _calls(b, r"ops::Index<I>>::index$")]
-        for sb, blk in enumerate(b.blocks):
-            t = blk.term
-            if t.kind == "switch" and re.match(r"\(len\(.*\) Ge 2\)$", defuse.show(du.origin(t.discr))):
-                tgt = [tb for v, tb in t.arms if v != 0] or [t.otherwise]
-                z = dict(t.arms).get(0)
-                g["G-b58-len"] = bool(idx) and all(not (z is not None and (z == i or b.dominates(z, i)))
-                                                   and b.dominates(sb, i) for i in idx)
+        # every slice of the decoded bytes by a constant bound (decoded[..2], decoded[2..], split_at(2)) sits
+        # under a dominating length test on the same vector
+        cuts = [s_ for s_ in panics.sites_of(fs[0]) if s_["kind"] == "index-call" or
+                (s_["kind"] == "len-call" and s_["detail"] in ("split_at", "split_at_mut"))]
+        g["G-b58-len"] = bool(cuts) and all(panics._length_guarded(b, s_) for s_ in cuts)
         tabs = decoder_tables(w)
         if tabs:
             _h, nets, kinds = tabs
